@@ -63,14 +63,25 @@ theorem unguarded_sites_are_modelled :
 
 /-! ### the one interface assumption between the decoder model (C01) and the tracker model (C03) -/
 
-/-- what the tracker model needs of a decoded header map (`C03.Parse.parseEv_wf` names it): whenever
-    the USN yields a udn, the `_udn` entry is that udn -/
-def udnGuarantee (h : Hdrs) : Prop := C03.Parse.RawOp.decoded (.pkt true (pairsOf h))
+/-- the string-level header map the tracker model reads -/
+def hsOf (h : Hdrs) : C03.Hdrs String := C16.SMap.writeAll C03.Parse.lower [] (pairsOf h)
 
-/-- … for every header map the decoder returns -/
+/-- what the tracker model needs of a decoded header map (`C03.Parse.parseEv_wf` names it), part 1:
+    whenever the USN yields a udn, the `_udn` entry is that udn -/
+def udnGuarantee (h : Hdrs) : Prop :=
+  ∀ u, (C03.Parse.truthy (PyDict.get? (hsOf h) "usn")).bind C03.Parse.udnFromUsn = some u →
+    C03.Parse.truthy (PyDict.get? (hsOf h) "_udn") = some u
+
+/-- … for every header map the decoder returns (PROVED below: `decode_guarantee`) -/
 def DecodeGuarantee : Prop :=
   ∀ (d : Bytes) (loc : Option Addr) (src : Addr) (now : Int) (rl : Bytes) (h : Hdrs),
     decodeX Fixes.all d loc src now = .ok (rl, h) → udnGuarantee h
+
+/-- part 2, about the clock and not about the decoder: `_timestamp` is a `datetime`, so not beyond
+    `datetime.max` (in the model `_timestamp` is the decimal rendering of the clock value `now`).
+    It is an explicit hypothesis of the listener theorems; the real clock cannot violate it. -/
+def ClockOk (trk : C03.Cfg) (d : Bytes) (loc : Option Addr) (src : Addr) (now : Int) : Prop :=
+  ∀ rl h, decodeX Fixes.all d loc src now = .ok (rl, h) → C03.Parse.tsOf (hsOf h) ≤ trk.tMax
 
 /-! ### totality -/
 
@@ -83,16 +94,14 @@ theorem onData_total (cfg : Cfg) (ep : Endpoint) (t : Tracker) {d : Bytes} {loc 
     obtain ⟨b, hb⟩ := searchClassify_total cfg.targetHost hd
     simp only [onData, hb]; exact ⟨_, rfl⟩
   | listenerAdv =>
-    obtain ⟨e, he, _⟩ := listenerStep_spec cfg.trk true t h
-    simp only [onData, he]; exact ⟨_, rfl⟩
+    simp only [onData, listenerStep_spec]; exact ⟨_, rfl⟩
   | listenerSearch =>
     obtain ⟨b, hb⟩ := searchClassify_total cfg.targetHost hd
     simp only [onData, hb]
     cases b with
     | false => exact ⟨_, rfl⟩
     | true =>
-      obtain ⟨e, he, _⟩ := listenerStep_spec cfg.trk false t h
-      simp only [he]; exact ⟨_, rfl⟩
+      simp only [listenerStep_spec]; exact ⟨_, rfl⟩
   | responder =>
     obtain ⟨e, he⟩ := responder_total cfg rl h
     simp only [onData, he]; exact ⟨_, rfl⟩
@@ -137,79 +146,53 @@ theorem recv_sequence_total (cfg : Cfg) (t : Tracker) (ops : List (Endpoint × B
 
 /-! ### the combined listener IS the C03 tracker -/
 
-/-- what the listener endpoints do with a decoded message: one `C03.step` (on the parsed event, its
-    max-age replaced by the saturated one when `extract_valid_to` runs); the effect is exactly that
-    step's notification — so C03's and C04's theorems (`c03_history_raw`, `c04_step`: which callback
-    fires, with which source) speak about this endpoint. -/
+/-- what the listener endpoints do with a decoded message: exactly one `C03.step` on the event C03's
+    own parser makes of the header map; the effect is exactly that step's notification — so C03's and
+    C04's theorems (`c03_history_raw`, `c04_step`: which callback fires, with which source,
+    `valid_to_saturates`) speak about this endpoint. -/
 theorem listener_is_C03_step (trk : C03.Cfg) (sockA : Bool) (t : Tracker) (h : Hdrs) :
-    ∃ e, listenerStep Fixes.all trk sockA t h = .ok (C03.step ipv (C03.Parse.skipHdr trk) t e)
-      ∧ classifyEv e = classifyEv (C03.Parse.parseEv trk sockA (pairsOf h))
-      ∧ (udnGuarantee h → ∃ hw : Prop, hw ∧ (∀ m, e = .msg m → wfCore m)) := by
-  obtain ⟨e, he, hcase⟩ := listenerStep_spec trk sockA t h
-  refine ⟨e, he, ?_, ?_⟩
-  · rcases hcase with rfl | ⟨m, vt, hp, rfl, _⟩
-    · rfl
-    · rw [hp]; rfl
-  · intro hg
-    have hw := C03.Parse.parseEv_wf trk sockA (pairsOf h) hg
-    refine ⟨True, trivial, ?_⟩
-    intro m' hm
-    rcases hcase with rfl | ⟨m, vt, hp, rfl, _⟩
-    · rw [hm] at hw; exact wfCore_of_wf hw
-    · rw [hp] at hw
-      cases hm
-      exact (wfCore_of_wf hw : wfCore m)
+    listenerStep Fixes.all trk sockA t h
+      = .ok (C03.step ipv (C03.Parse.skipHdr trk) t (C03.Parse.parseEv trk sockA (pairsOf h))) :=
+  listenerStep_spec trk sockA t h
 
 /-! ### a dropped datagram is inert, a well-formed message is dispatched -/
 
-theorem listener_dropped (hg : DecodeGuarantee) (trk : C03.Cfg) (sockA : Bool) (t t' : Tracker) (n : Option (C03.Notif String))
-    {d : Bytes} {loc : Option Addr} {src : Addr} {now : Int} {rl : Bytes} {h : Hdrs}
-    (hd : decodeX Fixes.all d loc src now = .ok (rl, h))
+theorem listener_dropped (trk : C03.Cfg) (sockA : Bool) (t t' : Tracker) (n : Option (C03.Notif String)) {h : Hdrs}
+    (hg : udnGuarantee h) (hclk : C03.Parse.tsOf (hsOf h) ≤ trk.tMax)
     (hc : classifyEv (C03.Parse.parseEv trk sockA (pairsOf h)) = none)
     (hs : listenerStep Fixes.all trk sockA t h = .ok (t', n)) : t' = t ∧ n = none := by
-  obtain ⟨e, he, hcase⟩ := listenerStep_spec trk sockA t h
-  rw [he] at hs
+  rw [listenerStep_spec] at hs
   simp only [Except.ok.injEq] at hs
-  have hw := C03.Parse.parseEv_wf trk sockA (pairsOf h) (hg d loc src now rl h hd)
-  rcases hcase with rfl | ⟨m, vt, hp, _, hr⟩
-  · -- the tracker ran on the parsed event itself: C03's `invalid_inert`
-    cases hpe : C03.Parse.parseEv trk sockA (pairsOf h) with
-    | noise ts =>
-      rw [hpe] at hs
-      simp only [C03.step, Prod.mk.injEq] at hs
-      exact ⟨hs.1.symm, hs.2.symm⟩
-    | purge nw =>
-      rcases C03.Parse.parseEv_cases trk sockA (pairsOf h) with ⟨ts, hn⟩ | ⟨kind, v, hm, _⟩
-      · rw [hpe] at hn; cases hn
-      · rw [hpe] at hm; cases hm
-    | msg m =>
-      rw [hpe] at hs hc hw
-      simp only [C03.Ev.wf] at hw
-      simp only [classifyEv] at hc
-      have hsb : m.sighting? = none ∧ m.byebye? = none := by
-        split at hc
-        · rename_i hk
-          refine ⟨by simp [C03.Msg.sighting?, hk], ?_⟩
-          cases hb : m.byebye? with
-          | none => rfl
-          | some u => rw [hb] at hc; cases hc
-        · rename_i hk
-          refine ⟨?_, by simp [C03.Msg.byebye?, hk]⟩
-          cases hb : m.sighting? with
-          | none => rfl
-          | some u => rw [hb] at hc; cases hc
-      have h1 := C03.invalid_inert ipv (C03.Parse.skipHdr trk) t m hw hsb.1 hsb.2
-      have h2 := step_notif_none ipv (C03.Parse.skipHdr trk) t m (wfCore_of_wf hw) hsb.1 hsb.2
-      rw [hs] at h1 h2
-      exact ⟨h1, h2⟩
-  · -- `extract_valid_to` ran: the message is a valid sighting, so it is not classified as dropped
-    obtain ⟨u, l, hsi⟩ := reaches_sighting hr
-    rw [hp] at hc
+  have hw := C03.Parse.parseEv_wf trk sockA (pairsOf h) hg hclk
+  cases hpe : C03.Parse.parseEv trk sockA (pairsOf h) with
+  | noise ts =>
+    rw [hpe] at hs
+    simp only [C03.step, Prod.mk.injEq] at hs
+    exact ⟨hs.1.symm, hs.2.symm⟩
+  | purge nw =>
+    rcases C03.Parse.parseEv_cases trk sockA (pairsOf h) with ⟨ts, hn⟩ | ⟨kind, v, hm, _⟩
+    · rw [hpe] at hn; cases hn
+    · rw [hpe] at hm; cases hm
+  | msg m =>
+    rw [hpe] at hs hc hw
+    simp only [C03.Ev.wf] at hw
     simp only [classifyEv] at hc
-    split at hc
-    · rename_i hk
-      simp [reachesValidTo, hk] at hr
-    · rw [hsi] at hc; cases hc
+    have hsb : m.sighting? = none ∧ m.byebye? = none := by
+      split at hc
+      · rename_i hk
+        refine ⟨by simp [C03.Msg.sighting?, hk], ?_⟩
+        cases hb : m.byebye? with
+        | none => rfl
+        | some u => rw [hb] at hc; cases hc
+      · rename_i hk
+        refine ⟨?_, by simp [C03.Msg.byebye?, hk]⟩
+        cases hb : m.sighting? with
+        | none => rfl
+        | some u => rw [hb] at hc; cases hc
+    have h1 := C03.invalid_inert ipv (C03.Parse.skipHdr trk) t m hw hsb.1 hsb.2
+    have h2 := step_notif_none ipv (C03.Parse.skipHdr trk) t m (wfCore_of_wf hw) hsb.1 hsb.2
+    rw [hs] at h1 h2
+    exact ⟨h1, h2⟩
 
 /-- **C02, second sentence.**  A datagram that is not a well-formed message for the endpoint
     (gate fails, decoding is rejected, the endpoint's validity test fails, not an
@@ -218,7 +201,7 @@ theorem listener_dropped (hg : DecodeGuarantee) (trk : C03.Cfg) (sockA : Bool) (
     headers and locations, watermark — exactly as it was.  For the combined listener this is C03's
     `invalid_inert` (the theorem behind `invalid_inert_raw`) under the interface assumption. -/
 theorem dropped_inert (hg : DecodeGuarantee) (cfg : Cfg) (ep : Endpoint) (t t' : Tracker) (eff : Eff) (data : Bytes)
-    (loc : Option Addr) (src : Addr) (now : Int) (hwf : classify cfg ep data loc src now = none)
+    (loc : Option Addr) (src : Addr) (now : Int) (hclk : ClockOk cfg.trk data loc src now) (hwf : classify cfg ep data loc src now = none)
     (h : recv Fixes.all cfg ep t data loc src now = .ok (t', eff)) : eff = noEff ∧ t' = t := by
   unfold recv at h
   unfold classify at hwf
@@ -260,7 +243,7 @@ theorem dropped_inert (hg : DecodeGuarantee) (cfg : Cfg) (ep : Endpoint) (t t' :
           rw [hs] at h
           simp only [Except.ok.injEq, Prod.mk.injEq] at h
           obtain ⟨rfl, rfl⟩ := h
-          obtain ⟨e1, e2⟩ := listener_dropped hg cfg.trk true t t1 n hdec hwf hs
+          obtain ⟨e1, e2⟩ := listener_dropped cfg.trk true t t1 n (hg _ _ _ _ _ _ hdec) (hclk _ _ hdec) hwf hs
           subst e1 e2
           exact ⟨rfl, rfl⟩
       | listenerSearch =>
@@ -281,7 +264,7 @@ theorem dropped_inert (hg : DecodeGuarantee) (cfg : Cfg) (ep : Endpoint) (t t' :
               rw [hs] at h
               simp only [Except.ok.injEq, Prod.mk.injEq] at h
               obtain ⟨rfl, rfl⟩ := h
-              obtain ⟨e1, e2⟩ := listener_dropped hg cfg.trk false t t1 n hdec hwf hs
+              obtain ⟨e1, e2⟩ := listener_dropped cfg.trk false t t1 n (hg _ _ _ _ _ _ hdec) (hclk _ _ hdec) hwf hs
               subst e1 e2
               exact ⟨rfl, rfl⟩
       | responder =>
@@ -326,27 +309,25 @@ def dispatchedM (t' : Tracker) (eff : Eff) : Dispatch → Prop
   | .unsee u => u ∉ PyDict.keys t'.devices
   | .respond => eff.sends + eff.timers ≥ 1
 
-theorem listener_dispatched (hg : DecodeGuarantee) (trk : C03.Cfg) (sockA : Bool) (t t' : Tracker) (hi : C03.Inv t)
-    (n : Option (C03.Notif String))
-    {d : Bytes} {loc : Option Addr} {src : Addr} {now : Int} {rl : Bytes} {h : Hdrs}
-    (hd : decodeX Fixes.all d loc src now = .ok (rl, h))
+theorem listener_dispatched (trk : C03.Cfg) (sockA : Bool) (t t' : Tracker) (hi : C03.Inv t)
+    (n : Option (C03.Notif String)) {h : Hdrs}
+    (hg : udnGuarantee h) (hclk : C03.Parse.tsOf (hsOf h) ≤ trk.tMax)
     (hs : listenerStep Fixes.all trk sockA t h = .ok (t', n)) :
     C03.Inv t' ∧ ∀ x, classifyEv (C03.Parse.parseEv trk sockA (pairsOf h)) = some x → dispatchedM t' (effOfNotif n) x := by
-  obtain ⟨e, he, hcl, hwc⟩ := listener_is_C03_step trk sockA t h
-  obtain ⟨_, _, hwc⟩ := hwc (hg d loc src now rl h hd)
-  rw [he] at hs
+  rw [listenerStep_spec] at hs
   simp only [Except.ok.injEq] at hs
+  have hw := C03.Parse.parseEv_wf trk sockA (pairsOf h) hg hclk
+  generalize C03.Parse.parseEv trk sockA (pairsOf h) = e at hs hw
   have h1 : (C03.step ipv (C03.Parse.skipHdr trk) t e).1 = t' := by rw [hs]
   have h2 : (C03.step ipv (C03.Parse.skipHdr trk) t e).2 = n := by rw [hs]
   subst h1 h2
   refine ⟨C03.inv_step _ _ hi e, ?_⟩
   intro x hx
-  rw [← hcl] at hx
   cases e with
   | purge _ => cases hx
   | noise _ => cases hx
   | msg m =>
-    have hw := hwc m rfl
+    have hw := wfCore_of_wf (show m.wf = true from hw)
     simp only [classifyEv] at hx
     split at hx
     · rename_i hk
@@ -367,12 +348,12 @@ theorem listener_dispatched (hg : DecodeGuarantee) (trk : C03.Cfg) (sockA : Bool
     watermark, a live location per device), a well-formed message has its effect (callback / device
     recorded / device forgotten / answer sent or scheduled) and the invariant is kept. -/
 theorem dispatched_effect (hg : DecodeGuarantee) (cfg : Cfg) (ep : Endpoint) (t t' : Tracker) (eff : Eff) (data : Bytes)
-    (loc : Option Addr) (src : Addr) (now : Int) (hn : C03.Inv t)
+    (loc : Option Addr) (src : Addr) (now : Int) (hclk : ClockOk cfg.trk data loc src now) (hn : C03.Inv t)
     (h : recv Fixes.all cfg ep t data loc src now = .ok (t', eff)) :
     C03.Inv t' ∧ ∀ d, classify cfg ep data loc src now = some d → dispatchedM t' eff d := by
   cases hcl : classify cfg ep data loc src now with
   | none =>
-    obtain ⟨_, rfl⟩ := dropped_inert hg cfg ep t t' eff data loc src now hcl h
+    obtain ⟨_, rfl⟩ := dropped_inert hg cfg ep t t' eff data loc src now hclk hcl h
     exact ⟨hn, fun d e => by cases e⟩
   | some d0 =>
     unfold recv at h
@@ -416,7 +397,7 @@ theorem dispatched_effect (hg : DecodeGuarantee) (cfg : Cfg) (ep : Endpoint) (t 
             rw [hs] at h
             simp only [Except.ok.injEq, Prod.mk.injEq] at h
             obtain ⟨rfl, rfl⟩ := h
-            obtain ⟨hi', hd'⟩ := listener_dispatched hg cfg.trk true t t1 hn n hdec hs
+            obtain ⟨hi', hd'⟩ := listener_dispatched cfg.trk true t t1 hn n (hg _ _ _ _ _ _ hdec) (hclk _ _ hdec) hs
             exact ⟨hi', fun d e => hd' d (hcl.trans e)⟩
         | listenerSearch =>
           simp only [onData] at h
@@ -434,7 +415,7 @@ theorem dispatched_effect (hg : DecodeGuarantee) (cfg : Cfg) (ep : Endpoint) (t 
                 rw [hs] at h
                 simp only [Except.ok.injEq, Prod.mk.injEq] at h
                 obtain ⟨rfl, rfl⟩ := h
-                obtain ⟨hi', hd'⟩ := listener_dispatched hg cfg.trk false t t1 hn n hdec hs
+                obtain ⟨hi', hd'⟩ := listener_dispatched cfg.trk false t t1 hn n (hg _ _ _ _ _ _ hdec) (hclk _ _ hdec) hs
                 exact ⟨hi', fun d e => hd' d (hcl.trans e)⟩
           · simp [hf] at hcl
         | responder =>
@@ -452,9 +433,47 @@ theorem dispatched_effect (hg : DecodeGuarantee) (cfg : Cfg) (ep : Endpoint) (t 
             exact ⟨hn, fun d e => by cases e; exact respond_effect _ _ hcnt he1⟩
           · simp [hc] at hcl
 
+/-- one datagram keeps C03's invariant, whatever it is (no interface hypothesis needed: `C03.inv_step`) -/
+theorem recv_inv (cfg : Cfg) (ep : Endpoint) (t t' : Tracker) (eff : Eff) (data : Bytes) (loc : Option Addr) (src : Addr)
+    (now : Int) (hn : C03.Inv t) (h : recv Fixes.all cfg ep t data loc src now = .ok (t', eff)) : C03.Inv t' := by
+  unfold recv at h
+  cases hp : protocolRecv Fixes.all cfg.prefixes data loc src now with
+  | error e => rw [hp] at h; cases h
+  | ok r =>
+    rw [hp] at h
+    cases r with
+    | none => cases h; exact hn
+    | some p =>
+      obtain ⟨rl, hd⟩ := p
+      dsimp only at h
+      cases ep with
+      | adv => simp only [onData] at h; cases h; exact hn
+      | search =>
+        simp only [onData] at h
+        cases hc : searchClassify cfg.targetHost hd with
+        | error e => rw [hc] at h; cases h
+        | ok b => rw [hc] at h; cases h; exact hn
+      | listenerAdv =>
+        simp only [onData, listenerStep_spec] at h
+        cases h; exact C03.inv_step _ _ hn _
+      | listenerSearch =>
+        simp only [onData] at h
+        cases hc : searchClassify cfg.targetHost hd with
+        | error e => rw [hc] at h; cases h
+        | ok b =>
+          rw [hc] at h
+          cases b with
+          | false => cases h; exact hn
+          | true => simp only [listenerStep_spec] at h; cases h; exact C03.inv_step _ _ hn _
+      | responder =>
+        simp only [onData] at h
+        cases hr : responder Fixes.all cfg rl hd with
+        | error e => rw [hr] at h; cases h
+        | ok e => rw [hr] at h; cases h; exact hn
+
 /-- every state reached from the empty tracker by any sequence of datagrams satisfies C03's invariant
     (the hypothesis of `dispatched_effect` / `model_judged_ok` holds along every history) -/
-theorem recv_sequence_inv (hg : DecodeGuarantee) (cfg : Cfg) (t : Tracker) (hn : C03.Inv t)
+theorem recv_sequence_inv (cfg : Cfg) (t : Tracker) (hn : C03.Inv t)
     (ops : List (Endpoint × Bytes × Option Addr × Addr × Int)) (t' : Tracker) (effs : List Eff)
     (h : recvAll Fixes.all cfg t ops = .ok (t', effs)) : C03.Inv t' := by
   induction ops generalizing t effs with
@@ -469,23 +488,23 @@ theorem recv_sequence_inv (hg : DecodeGuarantee) (cfg : Cfg) (t : Tracker) (hn :
     rw [h2] at h
     simp only [Except.ok.injEq, Prod.mk.injEq] at h
     obtain ⟨rfl, _⟩ := h
-    exact ih t1 (dispatched_effect hg cfg ep t t1 e1 data loc src now hn h1).1 es h2
+    exact ih t1 (recv_inv cfg ep t t1 e1 data loc src now hn h1) es h2
 
 /-- the judge accepts what the model does: for every datagram, in every state satisfying C03's
     invariant, the model's own outcome rendered as an observation satisfies `C02.ok` — so a judge
     failure at run time is a property of the implementation, never of the judge -/
 theorem model_judged_ok (hg : DecodeGuarantee) (cfg : Cfg) (ep : Endpoint) (t : Tracker) (data : Bytes) (loc : Option Addr)
-    (src : Addr) (now : Int) (hn : C03.Inv t) (sortKeys : List String → List String)
+    (src : Addr) (now : Int) (hclk : ClockOk cfg.trk data loc src now) (hn : C03.Inv t) (sortKeys : List String → List String)
     (hsort : ∀ l x, x ∈ sortKeys l ↔ x ∈ l) :
     ∃ o, obsOf t (recv Fixes.all cfg ep t data loc src now) sortKeys = some o
       ∧ ok (classify cfg ep data loc src now) o = true := by
   obtain ⟨t', eff, h⟩ := recv_total cfg ep t data loc src now
   rw [h]
   refine ⟨_, rfl, ?_⟩
-  obtain ⟨_, hd⟩ := dispatched_effect hg cfg ep t t' eff data loc src now hn h
+  obtain ⟨_, hd⟩ := dispatched_effect hg cfg ep t t' eff data loc src now hclk hn h
   cases hc : classify cfg ep data loc src now with
   | none =>
-    obtain ⟨he, ht⟩ := dropped_inert hg cfg ep t t' eff data loc src now hc h
+    obtain ⟨he, ht⟩ := dropped_inert hg cfg ep t t' eff data loc src now hclk hc h
     subst he ht
     simp [ok, Obs.inert, noEff]
   | some d =>
@@ -509,22 +528,23 @@ theorem decode_guarantee : DecodeGuarantee := by
 
 /-- the composed statements without hypothesis -/
 theorem dropped_inert_closed (cfg : Cfg) (ep : Endpoint) (t t' : Tracker) (eff : Eff) (data : Bytes)
-    (loc : Option Addr) (src : Addr) (now : Int) (hwf : classify cfg ep data loc src now = none)
+    (loc : Option Addr) (src : Addr) (now : Int) (hclk : ClockOk cfg.trk data loc src now)
+    (hwf : classify cfg ep data loc src now = none)
     (h : recv Fixes.all cfg ep t data loc src now = .ok (t', eff)) : eff = noEff ∧ t' = t :=
-  dropped_inert decode_guarantee cfg ep t t' eff data loc src now hwf h
+  dropped_inert decode_guarantee cfg ep t t' eff data loc src now hclk hwf h
 
 theorem dispatched_effect_closed (cfg : Cfg) (ep : Endpoint) (t t' : Tracker) (eff : Eff) (data : Bytes)
-    (loc : Option Addr) (src : Addr) (now : Int) (hn : C03.Inv t)
+    (loc : Option Addr) (src : Addr) (now : Int) (hclk : ClockOk cfg.trk data loc src now) (hn : C03.Inv t)
     (h : recv Fixes.all cfg ep t data loc src now = .ok (t', eff)) :
     C03.Inv t' ∧ ∀ d, classify cfg ep data loc src now = some d → dispatchedM t' eff d :=
-  dispatched_effect decode_guarantee cfg ep t t' eff data loc src now hn h
+  dispatched_effect decode_guarantee cfg ep t t' eff data loc src now hclk hn h
 
 theorem model_judged_ok_closed (cfg : Cfg) (ep : Endpoint) (t : Tracker) (data : Bytes) (loc : Option Addr)
-    (src : Addr) (now : Int) (hn : C03.Inv t) (sortKeys : List String → List String)
-    (hsort : ∀ l x, x ∈ sortKeys l ↔ x ∈ l) :
+    (src : Addr) (now : Int) (hclk : ClockOk cfg.trk data loc src now) (hn : C03.Inv t)
+    (sortKeys : List String → List String) (hsort : ∀ l x, x ∈ sortKeys l ↔ x ∈ l) :
     ∃ o, obsOf t (recv Fixes.all cfg ep t data loc src now) sortKeys = some o
       ∧ ok (classify cfg ep data loc src now) o = true :=
-  model_judged_ok decode_guarantee cfg ep t data loc src now hn sortKeys hsort
+  model_judged_ok decode_guarantee cfg ep t data loc src now hclk hn sortKeys hsort
 
 /-! ### each repair is necessary: one raising datagram per unrepaired variant
 
